@@ -237,7 +237,7 @@ impl Prop for C05 {
         ]
     }
     fn cases(tier: Tier) -> u32 {
-        tier.pick(5_000, 200_000)
+        tier.pick(5_000, 800_000)
     }
     fn strategy(tier: Tier) -> BoxedStrategy<Building> {
         let mut p = params(tier);
